@@ -711,6 +711,52 @@ def load_table():
         return json.load(fh)
 
 
+def guarded_locals(fa, g):
+    """Locals a guard speaks about, identified without their source names: by where the value
+    ends up ("sink": an argument position of a named callee, or a field of a constructed
+    struct). Falls back to the debug name only when no sink is given."""
+    sink = g.get("sink")
+    names = fa.fn.local_names()
+    if sink is None:
+        return {l for l, n in names.items() if n == g["local"]}
+    out = set()
+
+    def var_of(op):
+        """the user variable (a local that has a debug name, whatever it is) an operand copies"""
+        pl = op_place(op)
+        for _ in range(8):
+            if pl is None or pl["p"]:
+                return None
+            if pl["l"] in names or 1 <= pl["l"] <= fa.arg_count:
+                return pl["l"]
+            d = fa.single_def(pl["l"])
+            if d is None or d[2] != "assign" or d[3]["k"] != "use":
+                return None
+            pl = op_place(d[3]["op"])
+        return None
+
+    if "callee" in sink:
+        for b, t in fa.calls():
+            c = callee_of(t)
+            if c is None or not strip_generics((c.get("resolved") or c)["path"]).endswith(sink["callee"]):
+                continue
+            v = var_of(t["args"][sink["arg"]])
+            if v is not None:
+                out.add(v)
+    else:
+        for b in fa.live_blocks():
+            for s in fa.blocks[b]["stmts"]:
+                rv = s.get("rv")
+                if rv and rv["k"] == "agg" and str(rv.get("adt", "")).endswith(sink["adt"]) \
+                        and sink["field"] in (rv.get("fields") or []):
+                    v = var_of(rv["ops"][rv["fields"].index(sink["field"])])
+                    if v is not None:
+                        out.add(v)
+    if not out:
+        raise EngineError("panic table guard: sink %s not found in %s" % (sink, fa.fn.path))
+    return out
+
+
 def check_guard(ctx, crate, E, g):
     """Machine-checked guard requirements of table entries. Returns (ok, text)."""
     kind = g["kind"]
@@ -725,6 +771,10 @@ def check_guard(ctx, crate, E, g):
             fa, ok_b, err_b, map_calls, stores = r_map.mapall(sub, Em, crate)
             sub.obs = []
             r_map.maplen(sub, Em, crate, fa, ok_b, map_calls)
+        elif g["rule"] == "FEATSPAN":
+            import r_feat
+            sub.obs = []
+            r_feat.run(sub)
         elif g["rule"] == "VERIFYMAP":
             ok1 = verify_ids_guard(crate, E)
             ok2, txt, _ = verify_before_map(crate, E)
@@ -789,8 +839,7 @@ def check_guard(ctx, crate, E, g):
     if kind == "len_le":
         # fn returns Err when len(<local>) exceeds a constant <= bound
         fa = E.fa(g["fn"])
-        names = fa.fn.local_names()
-        ls = {l for l, n in names.items() if n == g["local"]}
+        ls = guarded_locals(fa, g)
         ok_b, err_b, _ = result_exits(fa)
         for b in sorted(fa.live_blocks()):
             t = fa.term(b)
@@ -849,8 +898,7 @@ def check_guard(ctx, crate, E, g):
     if kind == "err_before":
         # a check in fn returning Err when `local` is zero dominates the function's Ok exit
         fa = E.fa(g["fn"])
-        names = fa.fn.local_names()
-        ls = [l for l, n in names.items() if n == g["local"]]
+        ls = guarded_locals(fa, g)
         ok_b, err_b, _ = result_exits(fa)
         for b in sorted(fa.live_blocks()):
             t = fa.term(b)
